@@ -22,6 +22,8 @@ inductive Stays (F W : Key → Prop) : Prog → KV → Prop where
       W k → Stays F W c (upd m k (some v)) → Stays F W (.put k v c) m
   | del (k : Key) (c : Bool → Prog) (m : KV) :
       W k → Stays F W (c (m k).isSome) (upd m k none) → Stays F W (.del k c) m
+  | acq (k : Key) (c : Prog) (m : KV) : Stays F W c m → Stays F W (.acq k c) m
+  | rel (k : Key) (c : Prog) (m : KV) : Stays F W c m → Stays F W (.rel k c) m
 
 /-- final store of a program run alone (the counters play no role for `Stays` programs) -/
 def finalOf (p : Prog) (m : KV) : KV := (run1 p ⟨m, 0, 0⟩).2.kv
@@ -34,6 +36,8 @@ theorem run1_kv_counters (p : Prog) {F W : Key → Prop} {m : KV} (h : Stays F W
   | ex k c m _ _ ih => simpa [run1, finalOf] using ih a b
   | put k v c m _ _ ih => simpa [run1, finalOf] using ih a b
   | del k c m _ _ ih => simpa [run1, finalOf] using ih a b
+  | acq k c m _ ih => simpa [run1, finalOf] using ih a b
+  | rel k c m _ ih => simpa [run1, finalOf] using ih a b
 
 /-- frame: a `Stays` program behaves the same on any store that agrees on its footprint, and leaves
     every key outside its write footprint alone -/
@@ -83,6 +87,16 @@ theorem Stays.frame {F W : Key → Prop} (hWF : ∀ k, W k → F k) {p : Prog} {
     have := h3 x hx
     have hne : x ≠ k := by rintro rfl; exact hx hk
     simpa [finalOf, run1, upd, hne] using this
+  | acq k c m _ ih =>
+    intro m' hag
+    obtain ⟨h1, h2, h3⟩ := ih m' hag
+    exact ⟨.acq k c m' h1, fun x hx => by simpa [finalOf, run1] using h2 x hx,
+      fun x hx => by simpa [finalOf, run1] using h3 x hx⟩
+  | rel k c m _ ih =>
+    intro m' hag
+    obtain ⟨h1, h2, h3⟩ := ih m' hag
+    exact ⟨.rel k c m' h1, fun x hx => by simpa [finalOf, run1] using h2 x hx,
+      fun x hx => by simpa [finalOf, run1] using h3 x hx⟩
 
 /-- one atomic step of a `Stays` program: the rest still stays, reaches the same final store, and
     only a key of `W` may have changed -/
@@ -101,6 +115,8 @@ theorem Stays.step {F W : Key → Prop} {p : Prog} {m : KV} (h : Stays F W p m) 
     refine ⟨_, _, rfl, h', by simp [finalOf, run1], ?_⟩
     intro x hx; have : x ≠ k := by rintro rfl; exact hx hk
     simp [upd, this]
+  | acq k c m h' => exact ⟨_, _, rfl, h', by simp [finalOf, run1], fun _ _ => rfl⟩
+  | rel k c m h' => exact ⟨_, _, rfl, h', by simp [finalOf, run1], fun _ _ => rfl⟩
 
 
 /-! ### threads with footprints -/
@@ -110,8 +126,10 @@ structure Th where
   F : Key → Prop
   W : Key → Prop
 
-/-- one atomic store call of thread `i` per schedule entry (programs of `Stays` threads allocate
-    no ids, so there are no silent steps) -/
+/-- one atomic step of thread `i` per schedule entry: a store call, or a lock acquire / release,
+    which this semantics treats as a step WITHOUT effect — `runP` ignores the list locks, so it has
+    all the interleavings of the locked semantics and more (programs of `Stays` threads allocate no
+    ids) -/
 def runP : List Th → List Nat → St → List Th × St
   | ts, [], s => (ts, s)
   | ts, i :: sched, s =>
